@@ -21,6 +21,8 @@ OUTCOMES = (
     ("ast-document", "{ a o { x y } }", None, {"a": 1, "o": 1, "x": 1}, ("query", "validation", "execution"), {"as_ast": True}),
     ("ast-validation-error", "{ nope }", None, {}, ("query", "validation"), {"as_ast": True}),
     ("list-items", "{ l { x y } a }", None, {"a": 1, "l": 1, "x": 1, "y": 1}, ("query", "parsing", "validation", "execution")),
+    ("completion-error", "{ a sc o { x sc } b }", None, {"a": 1, "o": 1, "x": 1}, ("query", "parsing", "validation", "execution")),
+    ("meta-fields", "{ __typename a o { __typename x } t: __type(name: \"Obj\") { name } }", None, {"a": 1, "o": 1, "x": 1}, ("query", "parsing", "validation", "execution")),
 )
 
 
